@@ -16,6 +16,7 @@ def correspondence(res, tier, seed):
     debiasers.k15(res, tier, seed, tag="k15c02")
     debiasers.k17(res, tier, seed, tag="k17c02")
     debiasers.k21(res, tier, seed, tag="k21c02")
+    debiasers.k22(res, tier, seed, tag="k22c02")
     res.rule = ("K5 as for C03; search: eight debiasers x window mode (none/days/years) x shifts c in {0.5, -3, 40} or factors k in {0.5, 3}; "
                 "distinct/non-trivial = distinct (debiaser, configuration, window mode) classes")
 
